@@ -829,7 +829,7 @@ class TextString(Base):
         self.validate()
 
         if self.value is not None:
-            self.length = len(self.value)
+            self.length = len(self._encoded_value())
             self.padding_length = self.PADDING_SIZE - (self.length %
                                                        self.PADDING_SIZE)
             if self.padding_length == self.PADDING_SIZE:
@@ -838,14 +838,22 @@ class TextString(Base):
             self.length = None
             self.padding_length = None
 
+    def _encoded_value(self):
+        # Text strings are sent as UTF-8; the length counts bytes.
+        if isinstance(self.value, bytes):
+            return self.value
+        return self.value.encode('utf-8')
+
     def read_value(self, istream, kmip_version=enums.KMIPVersion.KMIP_1_0):
         # Read string text
-        self.value = ''
-        for _ in range(self.length):
-            c = unpack(self.BYTE_FORMAT, istream.read(1))[0]
-            if sys.version >= '3':
-                c = c.decode()
-            self.value += c
+        data = unpack(
+            '!{0}s'.format(self.length),
+            istream.read(self.length)
+        )[0]
+        if sys.version >= '3':
+            self.value = bytes(data).decode('utf-8')
+        else:
+            self.value = str(data)
 
         # Read padding and check content
         self.padding_length = self.PADDING_SIZE - (self.length %
@@ -871,8 +879,7 @@ class TextString(Base):
 
     def write_value(self, ostream, kmip_version=enums.KMIPVersion.KMIP_1_0):
         # Write string to stream
-        for char in self.value:
-            ostream.write(pack(self.BYTE_FORMAT, char.encode()))
+        ostream.write(self._encoded_value())
 
         # Write padding to stream
         for _ in range(self.padding_length):
